@@ -142,6 +142,17 @@ F-C12-1, F-C18-1).
 * Two quick checks that happened to build the Lean project at the same moment as a third process reported
   `theorems=0` (obligation broken): Lake has no build lock.  `core.lake_build` now takes an exclusive file lock
   (`lean/.build.lock`), so checks may run side by side, also on a tree where nothing is built yet.
+* C14 (round-7 stream): `differential_evolution` wraps an exception of the objective in its own `RuntimeError`; the
+  out-of-domain rule "a probe left the normalisation square of a Chebyshev surface" looked at the outer message only
+  and the run was reported as "optimize() with valid arguments returns".  The rule now follows the exception chain.
+* C07 thorough (round-7 stream): the tilt-about-the-centre-of-curvature comparison lacked the allowance for
+  paraboloids elsewhere in the lens that the other transformations have (finding F23: the conic quadratic cancels for
+  nearly axial rays); a paraboloid two surfaces behind the tilted sphere moved by 3e-7 mm.  Same allowance (1e-6) now.
+* C15 clause (c) (weighted compensation, added in round 7) raised two alarms while it was being built, both corrected
+  before it was committed: a compensator with `tol = 1e-5` legitimately stops anywhere the merit changes by less than
+  that (set-ups with weights now use `tol = 1e-10` and the threshold carries `10 tol`); and `LeastSquares` hands scipy
+  the squared terms `(w d)^2` as residuals, i.e. minimises `sum (w d)^4`, whose minimiser is not the one of the
+  weighted sum of squares — the clause is applied to `method='generic'` only.
 * `hash(name)` seeded the rays of C06 (randomised per process): replaced by `zlib.crc32`.  C07 and C06 replays did not
   reproduce the recorded case (no work seed / configuration in the case): fixed, which the corpus builder exposed.
 
@@ -150,7 +161,7 @@ F-C12-1, F-C18-1).
 {nseeds} changes (rounds 1–3: two per property; round 4: two more per property with the instruction "no cache or
 memoisation: one arithmetic / sign / index / branch slip on unusual inputs, one ordering / aliasing / in-place /
 two-call interaction"; round 5: two more with the instruction "a code path ordinary use does not take: one through a
-non-default argument / option / wrapper class, one triggered by an unusual but legitimate value or shape"; round 6: two more with the instruction "self-consistent errors: the library still agrees with itself, only an independent reference reveals the error — one shared constant / exponent / unit / sign / index base, one wrong choice among candidate values") were produced by fresh sub-agents that saw only the property text and a scratch worktree; each
+non-default argument / option / wrapper class, one triggered by an unusual but legitimate value or shape"; round 7: two more with the instruction "glue code, not formulas: argument and option handling, type and shape conversions, bookkeeping between objects, and one change that needs a COMBINATION of two features to manifest"; round 6: two more with the instruction "self-consistent errors: the library still agrees with itself, only an independent reference reveals the error — one shared constant / exponent / unit / sign / index base, one wrong choice among candidate values") were produced by fresh sub-agents that saw only the property text and a scratch worktree; each
 was confirmed by me in another scratch worktree (patch applies, the demonstration exits 1 with the change and 0
 without, 929 tests pass) and is kept as `seeded/<id>/` (`patch.diff`, `demo.py`, `notes.md`, `meta.json` with the
 check's own output).  One change (C11-3) was discarded: its demonstration no longer fails on the repaired tree
@@ -206,6 +217,22 @@ What the misses had in common, and the generator / harness changes they led to (
   random `apply()`/`reset()` calls), pickups / solves addressing surfaces from the image with negative indices whose
   stored form only matters at the next `update()` (C19-7; negative indices are now generated and the original and
   every reloaded lens receive the same later edits + `update()` before their behaviour is compared again).
+* *Round 7 (glue code and feature combinations)*: 28 of the 40 changes were reported as the checks stood, 10 after
+  strengthening, 2 were discarded.  What the misses had in common: the harness and the library shared a piece of glue.
+  The model of C02 was fed from the *built* lens, so a polynomial surface built without the decentre / tilt handed to
+  `add_surface` agreed with itself (C02-10): the built lens is now first compared with its descriptor
+  (`lensgen.construction_diffs`).  C15 compared a compensation with the library's own compensator, so dropped
+  operand weights cancelled (C15-10): an independent scipy minimisation of the weighted sum of squares is now the
+  reference.  Generators never produced: a gap of exactly 0 (C07-9), `add_field` before `set_field_type` (C09-10),
+  the object distance as optimisation variable (C14-10), a pickup source as variable with a solve behind the target
+  (C14-9; C01 caught the same change at once), edits of the surface list (`remove_surface`, `add_surface(index=k)`,
+  C19-9).  C03-10 and C06-9 (integer-typed pupil coordinates) exposed a latent genuine defect instead:
+  `RayGenerator.generate_rays(0, 1, 0, 1, w)` truncated positions through `np.full_like(Px, ...)`; it is repaired
+  (F-C03-4, `/repo` 3db4a37), C03 now passes whole-number pupil coordinates as Python ints and integer arrays, and the
+  two changes, which no longer alter any result, are kept under `seeded/discarded/` with the reason.  C16-9 (a pure
+  obscuration, `r_max = inf`, no longer clips) was reported by the correspondence only, with `no-failing-input-found`:
+  the predicate of C16 skipped every ray on such a surface as "on the aperture edge" (`|r^2 - inf| <= 1e-9 inf`), a
+  blind spot of the harness, corrected.
 * *Harness robustness*: C10-3 (a fit returning 36 instead of 37 coefficients) crashed the harness (exit 2) instead of
   being reported; the shape is now a checked clause.  C10-7 (a factorial table too short for Fringe terms above 78)
   did the same with an `IndexError` out of `get_term`.  Besides the two new clauses in C10, `harness/main.py` now
